@@ -6,11 +6,11 @@ import JunoModel.C14.Codec
 Requests (numbers are decimal):
   `decode <hex>` (record payload bytes -> what `decodeWALRecord` yields, `err` when it rejects)
   `set h e` | `del h` | `flush <fault>` | `close <fault>` | `open` | `load` | `disk`
-  `bases <cop> <fault>`            every durable state of the operation: `<disk>|<infl>` joined by ` ; `
+  `bases <cop> <fault>`            every durable state of the operation: `<tag>|<disk>|<infl>` joined by ` ; `
   `img <cop> <fault> <i> <mask>`   the crash image and what a restart sees: `<disk> => <recover>`
   `crash <cop> <fault> <i> <mask>` the process dies, the directory becomes that image
 with `<fault>` one of `none append norepair wm create wmsync rotate unlink:<k>`, `<cop>` one of `idle flush close open`,
-`<mask>` a string of `0`/`1` (`-` when empty), prefixed with `~` to undo an undurable watermark rename. -/
+`<mask>` a string of `0`/`1` (`-` when empty), prefixed with k times `~` to undo the undurable watermark renames back to the k-th remembered value. -/
 open Juno.Proto Juno.C14
 
 def fmtList (xs : List String) (sep : String) : String :=
@@ -26,10 +26,9 @@ def fmtDisk (d : Disk) : String :=
   "files=" ++ fmtList (d.files.map fmtFile) "," ++ " zombies=" ++ fmtList (d.zombies.map fmtFile) ","
     ++ " wm=" ++ (match d.wm with | some w => toString w | none => "-")
     ++ " tmp=" ++ (if d.tmp then "1" else "0")
-    ++ " alt=" ++ (match d.wmAlt with
-      | none => "-"
-      | some none => "none"
-      | some (some w) => toString w)
+    ++ " alt=" ++ fmtList (d.wmAlt.map (fun w => match w with
+      | none => "none"
+      | some w => toString w)) ","
 
 def fmtOut : Outcome → String
   | .ok => "ok"
@@ -74,11 +73,11 @@ def parseBits (m : String) : Option (List Bool) :=
     | some l, '0' => some (false :: l)
     | _, _ => none) (some [])
 
-/-- `<mask>` or `~<mask>` (the undurable watermark rename is undone as well) -/
-def parseMask (m : String) : Option (List Bool × Bool) :=
-  match m.toList with
-  | '~' :: rest => (parseBits (String.ofList rest)).map (fun b => (b, true))
-  | _ => (parseBits m).map (fun b => (b, false))
+/-- `<mask>` preceded by `k` times `~`: the undurable watermark renames are undone back to the
+`k`-th remembered content -/
+def parseMask (m : String) : Option (List Bool × Nat) :=
+  let k := (m.toList.takeWhile (· == '~')).length
+  (parseBits (String.ofList (m.toList.drop k))).map (fun b => (b, k))
 
 def fmtLimbs (l : Codec.Limbs) : String :=
   toString l.a ++ "," ++ toString l.b ++ "," ++ toString l.c ++ "," ++ toString l.d
@@ -126,6 +125,11 @@ def step (s : Sys) (line : String) : Sys × String :=
     match hexToBytes? hx with
     | some bs => (s, fmtPayload (Codec.decode bs))
     | none => (s, "bad-op")
+  | ["poke", i, e] =>
+    match i.toNat?, e.toNat? with
+    | some i, some e => if s.alive then ({ s with st := s.st.poke i e }, "ok") else (s, "dead")
+    | _, _ => (s, "bad-op")
+  | ["nextseq"] => (s, if s.alive then toString s.st.nextSeq else "dead")
   | ["load"] => if s.alive then (s, fmtLoad s.st.load) else (s, "dead")
   | ["disk"] => (s, fmtDisk s.disk)
   | ["writer"] =>
@@ -134,7 +138,15 @@ def step (s : Sys) (line : String) : Sys × String :=
     match parseFault ft with
     | some ft =>
       match parseCOp c ft with
-      | some c => (s, fmtList ((s.bases c).map (fun b => fmtDisk b.1 ++ "|" ++ (if b.2 then "1" else "0"))) " ; ")
+      | some c =>
+        let tags := match c with
+          | .flush ft => if s.alive then flushTags s.st ft else ["pre"]
+          | .close ft => if s.alive then closeTags s.st ft else ["pre"]
+          | .reopen => ["pre", "repaired"]
+          | .idle => ["pre"]
+        let bs := s.bases c
+        (s, fmtList ((List.zip (tags ++ List.replicate bs.length "?") bs).map
+          (fun p => p.1 ++ "|" ++ fmtDisk p.2.1 ++ "|" ++ (if p.2.2 then "1" else "0"))) " ; ")
       | none => (s, "bad-op")
     | none => (s, "bad-op")
   | ["img", c, ft, i, m] =>
